@@ -179,7 +179,7 @@ def cases(tier, rng, dist, focus=None):
     for _ in range(N // 3):
         n = rng.randint(1, 5)
         vals = [Fraction(rng.randint(-5, 5)) for _ in range(2 * n)]
-        kind = rng.choice(["add", "mul", "bad", "cube"])
+        kind = rng.choice(["add", "mul", "bad", "cube", "badmul", "add", "mul"])
         yield {"f": "pot", "x": [str(v) for v in vals[:n]], "y": [str(v) for v in vals[n:]], "kind": kind, "d": str(Fraction(rng.randint(-9, 9), rng.choice([1, 2])))}
     # the named statistics under a non-additive shift, many repetitions, outlying values: the hit count must come from
     # the named statistic in both keep_dist branches
@@ -199,6 +199,21 @@ def cases(tier, rng, dist, focus=None):
                "seed": rng.randint(0, 10**6), "gseed": rng.randint(0, 10**6)}
 
 
+# every (f, finverse) pair handed to the library comes from these two factories, so that valid and invalid pairs
+# share their code objects (a user's own factory does the same): a guard that is skipped for "already seen"
+# functions is then exercised by the mixed stream of valid and invalid pairs
+def _affine_pair(a, b, c):
+    return (lambda u: u + a, lambda u: u - b - c)
+
+
+def _scale_pair(a, b):
+    return (lambda u: u * a, lambda u: u / b)
+
+
+def _power_pair(k):
+    return (lambda u: u ** k, lambda u: u ** k)
+
+
 def shift_arg(sh):
     if sh is None:
         return None
@@ -206,9 +221,9 @@ def shift_arg(sh):
         d = Fraction(sh[1]); return float(d) if d.denominator != 1 or abs(d) > 10**6 else (int(d) if hash(sh[1]) % 2 else float(d))
     if sh[0] == "pair":
         d = float(Fraction(sh[2]))
-        if sh[1] == "add": return (lambda u: u + d, lambda u: u - d)
-        if sh[1] == "mul": return (lambda u: u * 2.0, lambda u: u / 2.0)
-        return (lambda u: u + d, lambda u: u - d - 1)
+        if sh[1] == "add": return _affine_pair(d, d, 0)
+        if sh[1] == "mul": return _scale_pair(2.0, 2.0)
+        return _affine_pair(d, d, 1)
     if sh[0] == "none":
         return None
     return (lambda u: u)   # a single callable, not a tuple
@@ -260,6 +275,9 @@ def run_two(c):
         if c["shift"] is None:
             r, unmod, gsame = call_test(core.two_sample, (x, y), kw, (x, y))
         else:
+            if c["shift"][0] == "pair" and c["shift"][1] not in ("add", "mul") and tag == "a":
+                g, ginv = _affine_pair(1.0, 1.0, 0)   # valid pair from the same factory first
+                guarded(lambda: utils.potential_outcomes(np.array(x, dtype=float), np.array(y, dtype=float), g, ginv))
             kw["shift"] = shift_arg(c["shift"])
             r, unmod, gsame = call_test(core.two_sample_shift, (x, y), kw, (x, y))
         out[tag] = {"r": norm3(r, keep), "rec": rec, "log": list(t.log), "unmodified": unmod, "global_same": gsame, "keep": keep}
@@ -315,14 +333,19 @@ def run_permute(c):
 
 def pot_fns(c):
     d = float(F(c["d"]))
-    if c["kind"] == "add": return (lambda u: u + d, lambda u: u - d)
-    if c["kind"] == "mul": return (lambda u: u * 2.0, lambda u: u / 2.0)
-    if c["kind"] == "cube": return (lambda u: u ** 3, lambda u: u ** 3)
-    return (lambda u: u + d, lambda u: u - d - 1)
+    if c["kind"] == "add": return _affine_pair(d, d, 0)
+    if c["kind"] == "mul": return _scale_pair(2.0, 2.0)
+    if c["kind"] == "cube": return _power_pair(3)
+    if c["kind"] == "badmul": return _scale_pair(2.0, 4.0)
+    return _affine_pair(d, d, 1)
 
 
 def run_pot(c):
     x = arr([F(v) for v in c["x"]]); y = arr([F(v) for v in c["y"]])
+    if c["kind"] in ("bad", "badmul", "cube"):
+        # a valid pair from the same factory first (self-contained replay of history-dependent guards)
+        g, ginv = _affine_pair(1.0, 1.0, 0) if c["kind"] == "bad" else (_scale_pair(2.0, 2.0) if c["kind"] == "badmul" else _power_pair(1))
+        guarded(lambda: utils.potential_outcomes(x.copy(), y.copy(), g, ginv))
     f, finv = pot_fns(c)
     r, unmod, _ = call_test(utils.potential_outcomes, (x, y, f, finv), {}, (x, y))
     return {"r": [r[0], np.array(r[1], dtype=float).tolist()] if r[0] == "ok" else list(r), "unmodified": unmod}
@@ -440,7 +463,8 @@ def to_coq(c, o):
         if c["kind"] == "cube":
             return None
         d = F(c["d"])
-        fs = {"add": (f"(AddC {cq(d)})", f"(AddC {cq(-d)})"), "mul": ("(MulC (2#1)%Q)", "(MulC (1#2)%Q)"), "bad": (f"(AddC {cq(d)})", f"(AddC {cq(-d - 1)})")}[c["kind"]]
+        fs = {"add": (f"(AddC {cq(d)})", f"(AddC {cq(-d)})"), "mul": ("(MulC (2#1)%Q)", "(MulC (1#2)%Q)"), "bad": (f"(AddC {cq(d)})", f"(AddC {cq(-d - 1)})"),
+              "badmul": ("(MulC (2#1)%Q)", "(MulC (1#4)%Q)")}[c["kind"]]
         impl = cres(("ok", [(fl(a), fl(b)) for a, b in o["r"][1]]) if o["r"][0] == "ok" else o["r"], lambda l: clist(l, lambda ab: f"({cq(ab[0])}, {cq(ab[1])})"))
         return f"PotCase {qlist([F(v) for v in c['x']])} {qlist([F(v) for v in c['y']])} {fs[0]} {fs[1]} {impl}"
     return None
@@ -706,7 +730,7 @@ def oracle_permute(c, o):
 
 def oracle_pot(c, o):
     r = o["r"]
-    if c["kind"] == "bad":
+    if c["kind"] in ("bad", "badmul"):
         return None if (r[0] == "exc" and r[1] == "AssertionError") else {"why": f"potential_outcomes accepted a non-inverse pair: {r[:2]}", "cls": "potential_outcomes:inverse-guard"}
     if c["kind"] == "cube":
         return None if (r[0] == "exc" and r[1] == "AssertionError") else {"why": f"potential_outcomes accepted u^3 as its own inverse: {r[:2]}", "cls": "potential_outcomes:inverse-guard"}
